@@ -139,6 +139,42 @@ def state_diff(a, b):
     return out
 
 
+def merge_values(left, right):
+    """astropy.utils.metadata.merge(left, right, metadata_conflicts='silent') on plain Python values: keys of either
+    operand; nested dicts merged recursively; list + list concatenated (MergePlus); otherwise the right value wins
+    (unless it is None or equal)"""
+    out = copy.deepcopy(left)
+    for k, rv in right.items():
+        if k not in out:
+            out[k] = copy.deepcopy(rv)
+        elif isinstance(out[k], dict) and isinstance(rv, dict):
+            out[k] = merge_values(out[k], rv)
+        elif isinstance(out[k], list) and isinstance(rv, list):
+            out[k] = out[k] + copy.deepcopy(rv)
+        elif rv is not None and out[k] != rv:
+            out[k] = copy.deepcopy(rv)
+    return out
+
+
+def clean_values(m):
+    return {k: v for k, v in m.items() if k not in ('header', 'expr')}
+
+
+def nested_targets(meta):
+    """the mutable containers below the top level of a metadata dictionary: (top-level key, container)"""
+    out = []
+
+    def walk(top, v):
+        if isinstance(v, (list, dict)):
+            out.append((top, v))
+            for x in (v.values() if isinstance(v, dict) else v):
+                walk(top, x)
+    for k in meta:
+        if k != 'warnings':
+            walk(k, meta[k])
+    return out
+
+
 def model_leaves(m):
     from astropy.modeling import CompoundModel
     if isinstance(m, CompoundModel):
@@ -174,6 +210,7 @@ class World:
         self.fp, self.meta_snap, self.state = [], [], []
         self.rd, self.rd_new = {}, {}
         self.pristine, self.mutlog = [], []
+        self.meta_real = {}     # deep copies of every object's metadata as of its last change
         self._bbflag = {}
         self.last_operand = None
         self.last_source = None
@@ -762,6 +799,41 @@ class World:
             self.objs[o].warnings = {k: json.loads(v) for k, v in st['w']}
         return {'do': 'set_warnings', 'o': o, 'w': st['w']}, self.guarded(f), {'o': o}
 
+    def do_edit_meta_deep(self, st):
+        """edit an object's metadata below the top level, in place: append to a nested list, set a key of a nested
+        dict, mutate an element of a list, or replace a whole nested value.  For the (flat) model this is an
+        assignment of the new value of the affected top-level entry."""
+        o = self.sel(st['o'])
+        if o is None:
+            return None, None, None
+        meta = self.objs[o].meta
+        targets = nested_targets(meta)
+        mode = st['mode']
+        tag = st['tag']
+        cands = {'append_list': [t for t in targets if isinstance(t[1], list)],
+                 'set_dict_key': [t for t in targets if isinstance(t[1], dict)],
+                 'mutate_elem': [t for t in targets if isinstance(t[1], list) and any(isinstance(x, dict) for x in t[1])],
+                 'replace_nested': [t for t in targets if isinstance(t[1], dict) and t[1]]}[mode]
+        if not cands:
+            return None, None, None
+        top, c = cands[st['n'] % len(cands)]
+
+        def f():
+            if mode == 'append_list':
+                c.append({'added': tag})
+            elif mode == 'set_dict_key':
+                c['edited'] = tag
+            elif mode == 'mutate_elem':
+                for x in c:
+                    if isinstance(x, dict):
+                        x['file'] = tag
+                        x['reviewed'] = True
+            else:
+                key = sorted(c)[0]
+                c[key] = [tag]
+        out = self.guarded(f)
+        return {'do': 'set_meta', 'o': o, 'k': top, 'v': jcanon(meta[top]), 'deep': mode}, out, {'o': o}
+
     def do_set_meta(self, st):
         o = self.sel(st['o'])
         if o is None:
@@ -881,6 +953,8 @@ class World:
                     if i not in allow_m:
                         self.fail('%s:metadata_of_other_object_changed' % d,
                                   'metadata of object #%d changed by %s of another object' % (i, d), k)
+            if i not in self.dead and (i >= n_before or mc != self.meta_snap[i] or i not in self.meta_real):
+                self.meta_real[i] = copy.deepcopy(self.objs[i].meta)
             sta = None if i in self.dead else attr_state(self.objs[i])
             if i < n_before and sta != self.state[i] and i not in allow_s and i not in allow_m:
                 # hidden state of a library object (a memo, a cache, a bookkeeping attribute) was written by a call
@@ -1118,44 +1192,48 @@ class World:
         self.failures.append((sig, msg, k))
 
     # ---------------------------------------------------------------- metadata of results (oracle)
-    def check_result_meta(self, k, conc, out, info, metas_before):
-        def clean(m):
-            return {'warnings': dict(m['warnings']), 'entries': {a: b for a, b in m['entries'].items() if a not in ('header', 'expr')}}
-
-        def merge(l, r):
-            o = {'warnings': dict(l['warnings']), 'entries': dict(l['entries'])}
-            o['warnings'].update(r['warnings'])
-            o['entries'].update(r['entries'])
-            return o
+    def check_result_meta(self, k, conc, out, info, real_before):
+        """result metadata = astropy-merge of deep copies of the operands' metadata minus header / expr (+ the
+        library's own warning); computed on the real values the operands had before the call"""
         d = conc['do']
         if 'ok' not in out or not isinstance(out['ok'], dict):
             return
-        empty = {'warnings': {}, 'entries': {}}
+        lib = None
         if d in ('arith', 'rmul') and 'obj' in out['ok']:
-            A = metas_before[info['a']]
-            B = metas_before[info['b']] if info.get('b') is not None else empty
+            A = real_before[info['a']]
+            B = real_before[info['b']] if info.get('b') is not None else {}
             if info.get('b') is not None and self.kinds[info['a']] != 'source' and self.kinds[info['b']] == 'source' \
                     and conc.get('op') == 'mul':
                 A, B = B, A
-            want = merge(clean(A), clean(B))
+            want = merge_values(clean_values(A), clean_values(B))
             rid = out['ok']['obj']
         elif d == 'normalize' and 'obj' in out['ok']:
-            want = clean(metas_before[info['o']])
-            if info['stat'].startswith('partial'):
-                want['warnings']['PartialRenorm'] = '<lib>'
+            want = merge_values(clean_values(real_before[info['o']]), {})
+            lib = 'PartialRenorm' if info['stat'].startswith('partial') else None
             rid = out['ok']['obj']
         elif d == 'observation':
             if 'objs' in out['ok']:
                 s, rid = out['ok']['objs']
-                S = meta_canon(self.objs[s].meta)
+                S = self.objs[s].meta
             else:
                 rid = out['ok']['obj']
-                S = metas_before[info['src']]
-            want = merge(clean(S), clean(metas_before[info['band']]))
-            if info['stat'].startswith('partial'):
-                want['warnings']['PartialOverlap'] = '<lib>'
+                S = real_before[info['src']]
+            want = merge_values(clean_values(S), clean_values(real_before[info['band']]))
+            lib = 'PartialOverlap' if info['stat'].startswith('partial') else None
         else:
             return
+        # BaseSpectrum.__init__ first gives a new object the merged metadata of its model instances (get_metadata,
+        # cleaned for a compound model); the operator then merges the operands' metadata onto that
+        # (an Observation goes through both steps twice: for `spec * band` and for itself)
+        M = {}
+        for l in model_leaves(self.objs[rid]._model):
+            M = merge_values(M, dict(getattr(l, 'meta', {}) or {}))
+        want = merge_values(clean_values(M), want)
+        if d == 'observation':
+            want = merge_values(clean_values(M), want)
+        want = meta_canon(want)
+        if lib:
+            want['warnings'][lib] = '<lib>'
         got = meta_canon(self.objs[rid].meta)
         if got != want:
             what = 'header_or_expr_kept' if any(x in got['entries'] for x in ('header', 'expr')) else 'not_the_merge'
@@ -1171,7 +1249,7 @@ BAND_QUERIES = ('tpeak', 'wpeak', 'equivwidth', 'rectwidth', 'efficiency', 'rmsw
 ANY_QUERIES = ('avgwave', 'pivot', 'barlam')
 LAW_QUERIES = ('extinction_curve',)
 # the steps that build objects or are documented mutators: replayed to obtain a fresh identical object
-BUILDING_STEPS = ('new_empirical', 'new_analytic', 'new_blackbody', 'arith', 'rmul', 'normalize', 'taper', 'observation',
+BUILDING_STEPS = ('edit_meta_deep', 'new_empirical', 'new_analytic', 'new_blackbody', 'arith', 'rmul', 'normalize', 'taper', 'observation',
                   'set_z', 'set_z_bad', 'set_ztype', 'force_extrap', 'set_warnings', 'set_meta')
 
 
@@ -1183,7 +1261,7 @@ def impl_call(case):
     try:
         for k, st in enumerate(case['steps']):
             n_before = len(w.objs)
-            metas_before = list(w.meta_snap)
+            real_before = dict(w.meta_real)      # deep copies taken when each object's metadata last changed
             # operands are resolved first so that the documented write-set is read off the graph as it is
             # *before* the call; `run_step` resolves the same way
             conc, out, info = w.run_step(k, st)
@@ -1196,7 +1274,7 @@ def impl_call(case):
             allowed = w.allowed_before(conc, info or {})
             w.triggers = []
             rec = w.observe(k, conc, out, info or {}, allowed, n_before, last=(k == len(case['steps']) - 1))
-            w.check_result_meta(k, conc, out, info or {}, metas_before)
+            w.check_result_meta(k, conc, out, info or {}, real_before)
             w.log_mutation(conc, info or {}, out)
             if conc['do'] in ('set_z', 'set_ztype', 'force_extrap') and 'err' not in out:
                 w.check_assigned(k, conc, info or {})
@@ -1279,6 +1357,14 @@ def compare(case, impl, model):
             if mm is None:
                 return '%s: no model metadata for object %s' % (where, i)
             mm = {'warnings': dict(map(tuple, mm['warnings'])), 'entries': dict(map(tuple, mm['entries']))}
+            # the model's metadata is flat (strings, the right operand wins a conflict): entries whose value is a
+            # list or dict are merged by astropy recursively / by concatenation, which only the implementation-side
+            # oracle `result_metadata` checks; they are left out of the comparison with the model
+            structured = {kk for kk, vv in list(mc['entries'].items()) + list(mm['entries'].items())
+                          if kk != 'header' and vv[:1] in ('[', '{')}
+            if structured:
+                mm = dict(mm, entries={kk: vv for kk, vv in mm['entries'].items() if kk not in structured})
+                mc = dict(mc, entries={kk: vv for kk, vv in mc['entries'].items() if kk not in structured})
             if mm != mc:
                 return '%s: metadata of object %s: impl %s vs model %s' % (where, i, mc, mm)
         for i, kd in rec['kinds'].items():
@@ -1372,13 +1458,20 @@ def gen_pool(rng):
     # a sampling grid inside every table
     arrays.append({'data': qs(O.sample_grid(rng, rng.randint(2, 6), 1000, 8800)), 'container': rng.choice(['ndarray', 'q_int']),
                    'unit': 'AA', 'role': 'wave', 'valid': True, 'grid': True})
+    ha = [{'step': 'load', 'file': 'a%d.fits' % rng.randint(0, 9)}]
+    hb = [{'step': 'load', 'file': 'b%d.fits' % rng.randint(0, 9)}, {'step': 'scale', 'by': 2}]
     dicts = [
         [['history', jcanon('mine')], ['tdisp1', jcanon('F8.3')]] if rng.random() < 0.5 else [['observer', jcanon('me')]],
-        [['expr', jcanon('em(%d)' % rng.randint(1, 9))], ['note', jcanon('n%d' % rng.randint(0, 9))]],
-        [['header', jcanon({'SIMPLE': 'T', 'N': rng.randint(0, 9)})], ['expr', jcanon('band(x)')], ['owner', jcanon('cal')]],
+        # nested mutable values (lists of dicts, dicts of lists), the same key on several dictionaries with equal and
+        # with different values, alongside flat entries
+        [['expr', jcanon('em(%d)' % rng.randint(1, 9))], ['note', jcanon('n%d' % rng.randint(0, 9))], ['history', jcanon(ha)]],
+        [['header', jcanon({'SIMPLE': 'T', 'N': rng.randint(0, 9)})], ['expr', jcanon('band(x)')], ['owner', jcanon('cal')],
+         ['history', jcanon(hb)], ['tags', jcanon({'seen': ['x'], 'n': 1})]],
+        [['history', jcanon(ha)], ['tags', jcanon({'seen': ['y'], 'by': {'who': 'me'}})], ['note', jcanon('shared')]],
         [],
     ]
-    return arrays, dicts[:rng.randint(2, 4)]
+    rng.shuffle(dicts)
+    return arrays, dicts[:rng.randint(3, 5)]
 
 
 def gen_leaf(rng, kind):
@@ -1441,11 +1534,11 @@ def gen_step(rng, k):
         if rng.random() < 0.3:
             return zinit(rng, {'do': 'new_analytic', 'kind': kind, 'leaf': gen_leaf(rng, kind)})
         return zinit(rng, {'do': 'new_empirical', 'kind': kind, 'x': S(rng), 'y': S(rng), 'keep_neg': rng.random() < 0.35,
-                           'meta': S(rng) if rng.random() < 0.5 else None, 'fill': gen_fill(rng)})
+                           'meta': S(rng) if rng.random() < 0.65 else None, 'fill': gen_fill(rng)})
     if r < 0.10:
         return zinit(rng, {'do': 'new_empirical', 'kind': rng.choice(['source', 'source', 'bandpass', 'bandpass', 'reddening', 'reddening']),
                            'x': S(rng), 'y': S(rng), 'keep_neg': rng.random() < 0.35,
-                           'meta': S(rng) if rng.random() < 0.5 else None, 'fill': gen_fill(rng)})
+                           'meta': S(rng) if rng.random() < 0.65 else None, 'fill': gen_fill(rng)})
     if r < 0.19:
         kind = rng.choice(['source', 'bandpass', 'bandpass'])
         return zinit(rng, {'do': 'new_analytic', 'kind': kind, 'leaf': gen_leaf(rng, kind)})
@@ -1496,8 +1589,15 @@ def gen_step(rng, k):
         return {'do': 'force_extrap', 'o': S(rng)}
     if r < 0.985:
         return {'do': 'set_warnings', 'o': S(rng), 'w': [[rng.choice(['mine', 'calib', 'seen']), jcanon('w%d' % rng.randint(0, 9))]]}
-    return {'do': 'set_meta', 'o': S(rng), 'k': rng.choice(['note', 'expr', 'header', 'owner', 'tag']),
+    if rng.random() < 0.5:
+        return gen_deep_edit(rng, S(rng))
+    return {'do': 'set_meta', 'o': S(rng), 'k': rng.choice(['note', 'expr', 'header', 'owner', 'tag', 'history']),
             'v': jcanon('v%d' % rng.randint(0, 9))}
+
+
+def gen_deep_edit(rng, o):
+    return {'do': 'edit_meta_deep', 'o': o, 'n': S(rng), 'tag': 'E%d' % rng.randint(0, 99),
+            'mode': rng.choice(['append_list', 'set_dict_key', 'mutate_elem', 'mutate_elem', 'replace_nested'])}
 
 
 def follow_ups(rng, st):
@@ -1550,6 +1650,9 @@ def follow_ups(rng, st):
         out.append({'do': 'set_warnings', 'o': -1, 'w': [['edited', jcanon('yes')]]})
         if rng.random() < 0.5:
             out.append({'do': 'set_meta', 'o': -1, 'k': 'note', 'v': jcanon('edited')})
+        # ... and below the top level: every nested container of the result's metadata is the result's own
+        for _ in range(rng.choice([1, 2])):
+            out.append(gen_deep_edit(rng, -1))
     return out
 
 
